@@ -83,7 +83,7 @@ struct Engine {
 	size_t inq_pos = 0;
 	wire::Bytes delivered; // inbound bytes delivered on this connection
 	wire::Bytes outbuf;    // partial outbound PDU
-	bool send_fault_on_conn = false;
+	bool send_fault_on_conn = false, out_is_query = false;
 	std::string sent_log;
 	bool m_first_pdu = true; // model: next inbound PDU is the first of its connection
 	// script cursor
